@@ -55,6 +55,19 @@ def long_case(draw, ctx):
     return case
 
 
+@st.composite
+def dynamic_case(draw, ctx):
+    """large dynamic range: averages of order one next to bursts 1e7..1e13 times larger.  Every interval is judged
+    on its own scale only (no share of the largest interval's magnitude): the matching works interval by interval,
+    so a burst somewhere in the series is no excuse for an error in a quiet interval far from it."""
+    case = draw(rfagen.rfa_case(ctx, m_lo=5, m_hi=ctx.pick(24, 40), n_hi=24, ykinds=["burst"],
+                                xkinds=["unit", "fstep", "motif", "hours", "dyadic"]))
+    case["rule"] = draw(st.sampled_from(["trapezoid", "rectangle"]))
+    case["append"] = draw(st.sampled_from([None, None, False, True]))
+    case["gtol"] = 0.0
+    return case
+
+
 def run_pipeline(x, y, case):
     w = Weaver(x, y)
     if case.get("append") is not None:
@@ -83,7 +96,7 @@ def judge(ctx, case, ox, oy, px, py, zx, zy, cls):
                  y_ref=[float(v) for v in oy], tr=case["rule"], rr="rectangle", alpha=None)
     F = [k * n for k in range(m)]
     R = list(range(m))
-    rows = interval_report(mcase, zy, F, R)
+    rows = interval_report(mcase, zy, F, R, gtol=case.get("gtol", 1e-12))
     nontrivial = False
     gscale = float(np.max(np.abs(oy)) + np.max(np.abs(zy))) + 1e-300
     for k, (got, want, tol, pre, scale) in enumerate(rows):
@@ -96,7 +109,7 @@ def judge(ctx, case, ox, oy, px, py, zx, zy, cls):
             raise Violation("harness: reference integral is not y_k * dx")   # pragma: no cover
         if abs(pre - want) > 1e-6 * scale:
             nontrivial = True
-    if case["rule"] == "rectangle":
+    if case["rule"] == "rectangle" and case.get("gtol") is None:
         ax, ay = process.average(zx, zy, n)
         if not (isinstance(ax, np.ndarray) and isinstance(ay, np.ndarray) and len(ax) == m and len(ay) == m):
             raise Violation(f"average(result, n) returned {len(ax)} / {len(ay)} blocks, expected {m}")
@@ -159,6 +172,8 @@ SUBCHECKS = [
                "the abscissae exactly and the averages to rounding"),
     Sub("long", "hyp", pipeline_body, strategy=long_case, quick=24, thorough=600,
         clause="same at the upper end of the claimed ranges (33..60 points, n 40..64: thousands of samples)"),
+    Sub("dynamic_range", "hyp", pipeline_body, strategy=dynamic_case, quick=300, thorough=8000,
+        clause="same with bursts 1e7..1e13 times larger than the rest: every interval judged on its own scale"),
     Sub("datasets", "enum", dataset_body_wrapped, cases=dataset_cases, shards=16, exhaustive=True,
         clause="same on every bundled dataset x strategy x n x rule"),
 ]
